@@ -16,8 +16,9 @@ import (
 )
 
 type hsym struct {
-	Name string
-	mod  []bool
+	Name  string
+	mod   []bool
+	hints map[gozxing.DecodeHintType]interface{} // the hints of THIS read (nil = none)
 }
 
 func parityOf(bits string) []bool { return parityBools(bits) }
@@ -27,25 +28,39 @@ func historyMenu() []hsym {
 	var p2 [2]bool
 	var p5 [5]bool
 	menu := []hsym{
-		{"ean13", ref.EAN13(main13)},
-		{"ean13-other", ref.EAN13("4006381333931")},
-		{"ean13-wrong-check", ref.EAN13("5901234123450")},
-		{"ean13+2", ref.WithAddOn(ref.EAN13(main13), ref.AddOn2("12"), 9)},
-		{"ean13+2b", ref.WithAddOn(ref.EAN13(main13), ref.AddOn2("07"), 9)},
-		{"ean13+5", ref.WithAddOn(ref.EAN13(main13), ref.AddOn5("52495"), 9)},
-		{"ean13+5b", ref.WithAddOn(ref.EAN13(main13), ref.AddOn5("01999"), 9)},
-		{"ean13+5c", ref.WithAddOn(ref.EAN13(main13), ref.AddOn5("52995"), 9)},
+		{"ean13", ref.EAN13(main13), nil},
+		{"ean13-other", ref.EAN13("4006381333931"), nil},
+		{"ean13-wrong-check", ref.EAN13("5901234123450"), nil},
+		{"ean13+2", ref.WithAddOn(ref.EAN13(main13), ref.AddOn2("12"), 9), nil},
+		{"ean13+2b", ref.WithAddOn(ref.EAN13(main13), ref.AddOn2("07"), 9), nil},
+		{"ean13+5", ref.WithAddOn(ref.EAN13(main13), ref.AddOn5("52495"), 9), nil},
+		{"ean13+5b", ref.WithAddOn(ref.EAN13(main13), ref.AddOn5("01999"), 9), nil},
+		{"ean13+5c", ref.WithAddOn(ref.EAN13(main13), ref.AddOn5("52995"), 9), nil},
 	}
 	copy(p2[:], parityOf("GG"))
-	menu = append(menu, hsym{"ean13+2-wrong-parity", ref.WithAddOn(ref.EAN13(main13), ref.AddOn2WithParity("12", p2), 9)})
+	menu = append(menu, hsym{"ean13+2-wrong-parity", ref.WithAddOn(ref.EAN13(main13), ref.AddOn2WithParity("12", p2), 9), nil})
 	copy(p5[:], parityOf("LLLLL"))
-	menu = append(menu, hsym{"ean13+5-wrong-parity", ref.WithAddOn(ref.EAN13(main13), ref.AddOn5WithParity("52495", p5), 9)})
+	menu = append(menu, hsym{"ean13+5-wrong-parity", ref.WithAddOn(ref.EAN13(main13), ref.AddOn5WithParity("52495", p5), 9), nil})
 	menu = append(menu,
-		hsym{"upca", ref.UPCA("036000291452")},
-		hsym{"upca+5", ref.WithAddOn(ref.UPCA("036000291452"), ref.AddOn5("12345"), 9)},
-		hsym{"ean8", ref.EAN8("96385074")},
-		hsym{"upce", ref.UPCE("04252614")},
-		hsym{"blank", make([]bool, 40)},
+		hsym{"upca", ref.UPCA("036000291452"), nil},
+		hsym{"upca+5", ref.WithAddOn(ref.UPCA("036000291452"), ref.AddOn5("12345"), 9), nil},
+		hsym{"ean8", ref.EAN8("96385074"), nil},
+		hsym{"upce", ref.UPCE("04252614"), nil},
+		hsym{"blank", make([]bool, 40), nil},
+	)
+	// reads under ALLOWED_EAN_EXTENSIONS: a symbol whose add-on is missing or of another length is
+	// given up AFTER its check digit was verified - a failure exit of its own
+	ext := func(n ...int) map[gozxing.DecodeHintType]interface{} {
+		return map[gozxing.DecodeHintType]interface{}{gozxing.DecodeHintType_ALLOWED_EAN_EXTENSIONS: n}
+	}
+	menu = append(menu,
+		hsym{"ean13@ext5", ref.EAN13(main13), ext(5)},
+		hsym{"ean13+2@ext5", ref.WithAddOn(ref.EAN13(main13), ref.AddOn2("12"), 9), ext(5)},
+		hsym{"ean13+5@ext5", ref.WithAddOn(ref.EAN13(main13), ref.AddOn5("52495"), 9), ext(5)},
+		hsym{"upca@ext2", ref.UPCA("036000291452"), ext(2)},
+		hsym{"upca-wrong-check", ref.UPCA("036000291459"), nil},
+		hsym{"ean8-wrong-check", ref.EAN8("96385071"), nil},
+		hsym{"ean8@ext2", ref.EAN8("96385074"), ext(2)},
 	)
 	return menu
 }
@@ -93,14 +108,14 @@ func runHistory() {
 			}
 			fresh := make([]string, len(menu))
 			for k, s := range menu {
-				fresh[k] = outcomeKey(read(nil, j.reader, s.mod, scale, j.path))
+				fresh[k] = outcomeKey(read(nil, j.reader, s.mod, scale, j.path, s.hints))
 			}
 			var rec func(seq []int)
 			rec = func(seq []int) {
 				rd := newReader(j.reader)
 				var last outcome
 				for _, k := range seq {
-					last = read(rd, j.reader, menu[k].mod, scale, j.path)
+					last = read(rd, j.reader, menu[k].mod, scale, j.path, menu[k].hints)
 				}
 				l.Count("evaluations", 1)
 				final := seq[len(seq)-1]
